@@ -11,6 +11,48 @@ use std::collections::{BTreeMap, HashSet};
 use std::fmt::Write as _;
 
 // ---------------------------------------------------------------------------------------------
+// Counting global allocator (C08): allocations are counted only while `alloc_arm(true)` is set on
+// the current thread, i.e. around calls into the library with pre-built arguments and a
+// non-allocating target.
+// ---------------------------------------------------------------------------------------------
+pub struct CountingAlloc;
+thread_local! {
+    static ALLOC_ARMED: std::cell::Cell<bool> = const { std::cell::Cell::new(false) };
+    static ALLOC_COUNT: std::cell::Cell<u64> = const { std::cell::Cell::new(0) };
+    pub static PANIC_LOC: std::cell::RefCell<String> = const { std::cell::RefCell::new(String::new()) };
+}
+unsafe impl std::alloc::GlobalAlloc for CountingAlloc {
+    unsafe fn alloc(&self, l: std::alloc::Layout) -> *mut u8 {
+        let _ = ALLOC_ARMED.try_with(|a| {
+            if a.get() {
+                let _ = ALLOC_COUNT.try_with(|c| c.set(c.get() + 1));
+            }
+        });
+        std::alloc::System.alloc(l)
+    }
+    unsafe fn dealloc(&self, p: *mut u8, l: std::alloc::Layout) {
+        std::alloc::System.dealloc(p, l)
+    }
+    unsafe fn realloc(&self, p: *mut u8, l: std::alloc::Layout, n: usize) -> *mut u8 {
+        let _ = ALLOC_ARMED.try_with(|a| {
+            if a.get() {
+                let _ = ALLOC_COUNT.try_with(|c| c.set(c.get() + 1));
+            }
+        });
+        std::alloc::System.realloc(p, l, n)
+    }
+}
+/// Arm / disarm allocation counting on this thread; returns the count so far.
+pub fn alloc_arm(on: bool) -> u64 {
+    ALLOC_ARMED.with(|a| a.set(on));
+    ALLOC_COUNT.with(|c| c.get())
+}
+pub fn alloc_reset() {
+    ALLOC_ARMED.with(|a| a.set(false));
+    ALLOC_COUNT.with(|c| c.set(0));
+}
+
+// ---------------------------------------------------------------------------------------------
 // PRNG: every random choice of a run derives from one splitmix64 state seeded with VERIF_SEED.
 // ---------------------------------------------------------------------------------------------
 #[derive(Clone)]
